@@ -396,7 +396,7 @@ func ruleErrorsNotAbsorbed(c *Check, p *Program, rule string, fns []*ssa.Functio
 				callee = "iface." + ci.Common().Method.Name()
 			}
 			// hash writes never fail
-			if strings.HasPrefix(callee, "xxh32.") || callee == "fmt.Errorf" {
+			if strings.HasPrefix(callee, "xxh32.") || callee == "fmt.Errorf" || isErrorConstructor(staticCallee(ci)) {
 				continue
 			}
 			// a peek at the persistent error latch that is only tested against nil: nothing is consumed, the
@@ -752,4 +752,30 @@ func ruleReadValueAfterCheck(c *Check, p *Program, rule string) {
 	if n < 4 {
 		c.Fail(rule, "reader-side#word-reads", "", "the 32-bit source reads of the reading path are resolved", fmt.Sprintf("only %d calls of a 32-bit source-read helper found (confirmed by reading: magic, skippable length, block size, block checksum, content checksum)", n))
 	}
+}
+
+// isErrorConstructor: a module function that builds an error and cannot fail itself: every return hands back the
+// result of fmt.Errorf / errors.New (or a value converted to error), never a nil constant or a parameter.
+func isErrorConstructor(f *ssa.Function) bool {
+	if f == nil || !inModule(f) || len(f.Blocks) == 0 || f.Signature.Results().Len() != 1 || !isErrorType(f.Signature.Results().At(0).Type()) {
+		return false
+	}
+	ok, n := true, 0
+	allInstrs(f, func(in ssa.Instruction) {
+		r, isR := in.(*ssa.Return)
+		if !isR || len(r.Results) != 1 {
+			return
+		}
+		n++
+		switch x := r.Results[0].(type) {
+		case *ssa.Call:
+			if !(calleeIs(x, "fmt", "Errorf") || calleeIs(x, "errors", "New")) {
+				ok = false
+			}
+		case *ssa.MakeInterface:
+		default:
+			ok = false
+		}
+	})
+	return ok && n > 0
 }
